@@ -251,6 +251,11 @@ def run(tier, seed, replay=None):
                    for op in PATH_OPS]
             worlds.append({"name": "history-%d" % i, "aw": True, "nodes": inside_tree(t), "sentinel": True, "ledgerBelow": True,
                            "rootSpelling": rng.choice(SPELLINGS), "conns": [{"id": 1, "reqs": pre}, {"id": 2, "reqs": pre[:5] + esc}]})
+        # the root itself as the target of a removal (it is an entry of the directory above it): also when it is empty
+        for k, sp in enumerate(SPELLINGS if full else SPELLINGS[:2]):
+            reqs = [{"op": op, "path": pth} for pth in ("/", "", "/.", "../..", "/a/..", "//") for op in ("RMDIR", "DELETE_FILE")] + [{"op": "STAT_FILE", "path": "/"}]
+            worlds.append({"name": "remove-root-%d" % k, "aw": True, "nodes": [], "sentinel": True, "ledgerBelow": True, "rootSpelling": sp,
+                           "conns": [{"id": 1, "reqs": reqs}], "probe": True})
         srv.run_and_validate(ctx, worlds, rep, max_rejections=12)
         # the real binary, root spelled as an operator might (incl. the default "."), under strace
         binary = common.build_binary(scratch)
